@@ -8,13 +8,15 @@ def check(run):
     run.rule(r[1], "remove / clear reset the removed node's links, so it can be registered again", floor=24)
     run.rule(r[2], "every catalog registration made in a constructor has an unconditional removal from the same catalog in the destructor", floor=6)
     run.rule(r[3], "add_function registers a definition once: already registered -> no push; otherwise method set, then pushed", floor=3)
+    run.rule("C18-enum", "enumeration: begin() starts at first, end() is the null iterator, ++ follows next_ptr, */-> give the node, ==/!= compare nodes, empty() <=> no first node, size() = steps from begin() to end() (or a maintained count)", floor=8)
     for nd in ([True] if run.tier == "quick" else [True, False]):
         ast, _ = crules.unit(run, ndebug=nd)
         crules.list_rules(run, r[0], r[1], r[2], r[3], ast)
+        crules.enum_rules(run, "C18-enum", ast)
     run.assumptions += ["the case analysis is over the shape of the list at the call (empty / only / first / last / interior element), with the documented invariant "
                         "'first->prev points at the last node, last->next is null'; that these local updates compose to a correct list for every history is the "
                         "induction this rule is the step of - the induction itself (all histories) is not mechanised here",
-                        "size()/empty()/iteration are const walks over next links: not separately decided"]
+                        "that walking next links from `first` visits every live item exactly once follows from the link invariant (C18-link) and the iterator rules (C18-enum)"]
     return run.finish(level="other", explanation="AST decision tables: each static_list operation is evaluated by path enumeration under each list-shape case and the set of "
                       "link assignments (canonicalised by role: node, PREV, NEXT, LAST, first) is compared with the one the invariant requires; constructor / "
                       "destructor pairing of catalog calls by resolved list and node; CFG control dependence of the removals; idempotence of add_function.")
